@@ -63,6 +63,7 @@ func checkC17(p *Prog, res *Result, tier string) {
 	res.rule("C17-R2", "expiry deletes are guarded by revision <= timeoutRevision; marks are popped only when older than the TTL", 3)
 	res.rule("C17-R3", "index by compare-and-delete, versions by delete", 2)
 	res.rule("C17-R4", "no function of the scanner package reaches the event sink or the hub", 1)
+	res.rule("C17-R8", "an engine with native TTL (where the expiry worker is disabled, R5) expires every record of an event: each write form hands the ttl to the engine (C11-R10)", 6)
 	res.rule("C17-R7", "every adapter compares before it deletes in its compare-and-delete (C11-R1): expiry relies on it for index records", 3)
 	res.rule("C17-R6", "expiry deletes follow the worker's failed-delete discipline with the record's user key, so that an event is removed wholly or its remaining records are left alone (C07-R4)", 2)
 	res.rule("C17-R5", "expiry disabled on engines with native TTL; TTL handed to the engine only on the classified branch", 2)
@@ -564,6 +565,13 @@ func checkC17(p *Prog, res *Result, tier string) {
 		for _, o := range sub11.Obls {
 			if o.Rule == "C11-R1" && strings.Contains(o.Construct, "DelCurrent") {
 				res.add("C17-R7", o.Rule+" "+o.Construct, o.Status, o.Pos, o.Detail)
+			}
+			// .. and the metrics wrapper hands the compare-and-delete on as one (C11-R5)
+			if o.Rule == "C11-R5" && strings.HasSuffix(o.Construct, ".DelCurrent") {
+				res.add("C17-R7", o.Rule+" "+o.Construct, o.Status, o.Pos, o.Detail)
+			}
+			if o.Rule == "C11-R10" {
+				res.add("C17-R8", o.Rule+" "+o.Construct, o.Status, o.Pos, o.Detail)
 			}
 		}
 	}
